@@ -18,6 +18,7 @@ package composite
 
 import (
 	"context"
+	"fmt"
 	"metacontroller/pkg/logging"
 
 	"k8s.io/apimachinery/pkg/runtime/schema"
@@ -177,6 +178,13 @@ func (mc *Metacontroller) reconcileCompositeController(cc *v1alpha1.CompositeCon
 	if _, ok := mc.parentControllers[cc.Name]; ok {
 		// The controller was already started and nothing has changed.
 		return nil
+	}
+
+	// The hosted controller reads ControllerRevisions from the shared lister. While
+	// that cache is still filling, a parent's recorded rollout state looks empty, so
+	// do not start syncing parents yet; the reconcile is retried with back-off.
+	if !mc.revisionInformer.HasSynced() {
+		return fmt.Errorf("can't start controller %s yet: ControllerRevision informer has not synced", cc.Name)
 	}
 
 	pc, err := newParentController(
